@@ -612,7 +612,9 @@ def _skips_first(F, ps, model):
     for p in ps:
         r = p.env.get('_0')
         names = [c[1] for c in p.calls]
-        nb_before_scan = names[:names.index(T + 'skip_while')].count(T + 'bump') if (T + 'skip_while') in names else None
+        # (the scan that reads the word is the LAST one: a run-of-blanks scan before it stops at the `a` without consuming it)
+        last_scan = max((i for i, n_ in enumerate(names) if n_ == T + 'skip_while'), default=None)
+        nb_before_scan = names[:last_scan].count(T + 'bump') if last_scan is not None else None
         if p.exit == 'return' and r and r[0] == 'call' and r[1] == tables.LEXNEXT and (T + 'skip_while') not in names and names.count(T + 'bump') == 1:
             kinds.add('skip')
         elif p.exit == 'return' and nb_before_scan == 2 and r and r[0] == 'agg' and r[2] == 'Some':
